@@ -30,20 +30,36 @@ def build_roto_bin(ctx):
     return exe
 
 
+def model_available(ctx):
+    """The Lean driver speaks for the tree only if it was rebuilt from this run's
+    regenerated definitions.  After a failed extraction / Lean build the binary
+    on disk is stale or missing: the harness then compares the implementation
+    with the property's oracle alone (C19_MODEL=off) instead of dying or
+    quoting an outdated model."""
+    ok, _out = ctx.lake_build(["rotov-driver"])
+    return ok
+
+
 def correspondence(ctx, seed, tier, name=None):
     exe = build_roto_bin(ctx)
     if exe:
         os.environ["ROTO_BIN"] = exe
     else:
         os.environ.pop("ROTO_BIN", None)
+    os.environ["C19_MODEL"] = "on" if model_available(ctx) else "off"
     if ctx.build_harness("c19"):
-        ctx.harness("c19", ["run", seed, tier], timeout=3000, name=name)
+        ctx.harness("c19", ["run", seed, tier], timeout=6000, name=name)
 
 
 def search(ctx):
     # a broken theorem / extraction / correspondence: hunt for a concrete script
-    # or invocation on which the real runner / CLI violates the property
-    correspondence(ctx, ctx.seed + 7919, "thorough", name="search:c19")
+    # or invocation on which the real runner / CLI violates the property.  The
+    # boundary tables (test blocks at every module depth; 0, 1, 2, 255, 256, 257,
+    # 512 and 65536 rejecting blocks through the real `roto` binary) run first.
+    if ctx.impl_violations:
+        ctx.log("the correspondence run already holds a concrete failing input; no further search")
+        return
+    correspondence(ctx, ctx.seed + 7919, "search", name="search:c19")
 
 
 def run(ctx):
@@ -55,7 +71,8 @@ def run(ctx):
         "adapters; Module::get_function as key lookup + signature equality; declaration name spaces; pipeline stages as World operations "
         "— tied by the correspondence run only",
         "unicode-ident: '#' and '.' are not XID_Continue, XID_Start is a subset of XID_Continue (hypothesis XIDFacts of discovery_exact / no_shadow_*)",
-        "counters of run_tests are i32 (Rust integer fallback): aggregate_iff assumes fewer than 2^31 tests",
+        "counters of run_tests are i32 (Rust integer fallback; an explicitly typed counter is refused by the translator): aggregate_* assume fewer than 2^31 tests",
+        "std::process::ExitCode is modelled as the status number the parent observes (SUCCESS = 0, FAILURE = 1, from(u8)); `failed` = status ≠ 0",
         "the JIT-compiled body of a test returns the verdict its source says (C01); modelled as FnInfo.verdict",
     ]
     return ctx.finish(
@@ -73,7 +90,7 @@ def replay(ctx, data):
         return 1
     # the driver must speak for the tree being replayed on
     ctx.extract(["testrunner"])
-    ctx.lake_build(["rotov-driver"])
+    os.environ["C19_MODEL"] = "on" if model_available(ctx) else "off"
     exe = build_roto_bin(ctx)
     if exe:
         os.environ["ROTO_BIN"] = exe
